@@ -209,6 +209,9 @@ impl<'a> CascadesOptimizer<'a> {
 
         self.stats = Some(stats);
 
+        #[cfg(feature = "verif")]
+        crate::verif::plan::plan_chosen(&plan);
+
         Ok(plan)
     }
 
